@@ -1165,4 +1165,4 @@ def coverage_extra(prop, tier, agg, jobs_):
     }
 
 
-RULE_MORE = {'C11': ' Added in the build rounds: multi-file commands (per-destination attribution through a wrapper on file.to_file), a write that succeeds before the faulted one, .rom destination, TMP-ERR (no scratch file), broken error stream while warnings are emitted, writer exceptions of 13 types incl. the abstract BaseLuaWriter, glyph code, destination as symbolic link, names with spaces and dots, relative arguments and cwd, TMPDIR in the destination directory, earlier successful / failed operations in the same process, and the rule that a failure the code raises after the encoder returned counts while a success reported after a fired fault must leave either the old file or the intended cart. Round 6: the cart a game was loaded from may be moved away before the game is saved under another name.'}
+RULE_MORE = {'C11': ' Added in the build rounds: multi-file commands (per-destination attribution through a wrapper on file.to_file), a write that succeeds before the faulted one, .rom destination, TMP-ERR (no scratch file), broken error stream while warnings are emitted, writer exceptions of 13 types incl. the abstract BaseLuaWriter, glyph code, destination as symbolic link, names with spaces and dots, relative arguments and cwd, TMPDIR in the destination directory, earlier successful / failed operations in the same process, and the rule that a failure the code raises after the encoder returned counts while a success reported after a fired fault must leave either the old file or the intended cart. Round 6: the cart a game was loaded from may be moved away before the game is saved under another name. Round 7: a message stream that accepts writes but cannot be flushed (block-buffered pipe whose reader is gone); the token list of a game edited after an earlier save with the same writer, so that the .p8 encoder is handed code that does not re-parse (counts as a fired fault whatever status is reported).'}
